@@ -476,7 +476,18 @@ pub fn run_c41(_p: &str, tier: Tier, run_seed: u64, _ov: &Value) -> RunOut {
     }
     // (5) through http_get over real loopback, a scripted peer thread (segmentation and
     //     timing cannot matter: http_get reads to EOF before it looks at a byte)
-    let n_wire = if tier == Tier::Thorough { 4 } else { 2 };
+    // every wire case costs a loopback connection that lingers in TIME_WAIT: the thorough
+    // tier's 20 000 runs would exhaust the ephemeral ports, so only one run in eight goes
+    // through the wire there (about 10 000 connections)
+    let n_wire = if tier == Tier::Thorough {
+        if rng.fork(0x317e).chance(1, 8) {
+            4
+        } else {
+            0
+        }
+    } else {
+        2
+    };
     for wi in 0..n_wire {
         let body: Vec<u8> = (0..rng.usize(300)).map(|_| b'a' + rng.below(26) as u8).collect();
         let ext = rng.coin();
@@ -489,7 +500,11 @@ pub fn run_c41(_p: &str, tier: Tier, run_seed: u64, _ov: &Value) -> RunOut {
             None => framed.clone(),
         };
         resp.extend_from_slice(&payload);
-        let listener = std::net::TcpListener::bind("127.0.0.1:0").expect("loopback");
+        let Ok(listener) = std::net::TcpListener::bind("127.0.0.1:0") else {
+            // no port to be had: not a verdict about the decoder
+            out.bump("n.wire_case_skipped_no_loopback_port");
+            continue;
+        };
         let addr = listener.local_addr().unwrap();
         let pieces: Vec<Vec<u8>> = {
             let mut v = Vec::new();
